@@ -463,11 +463,38 @@ def write_point_schedules(ctx, site, make, files, cap, nthreads=3, read_cap=None
         # the neighbourhood of an unmodelled site: the reads of what it writes are part of the same search
         urgent += reads
         reads = []
-    urgent = stratified(ctx.rng, urgent, 12 * cap)
+    urgent = stratified(ctx.rng, urgent, min(12 * cap, 120))
     first = stratified(ctx.rng, first, 4 * cap)
     scheds = stratified(ctx.rng, scheds, cap)
-    reads = stratified(ctx.rng, reads, max(4, cap // 6) if read_cap is None else read_cap)
+    reads = stratified(ctx.rng, reads, max(2, cap // 15) if read_cap is None else read_cap)
     return urgent + first + scheds + reads
+
+
+def two_level_schedules(ctx, site, make, files, cap):
+    """Schedules with TWO pre-emptions among three threads: A is suspended next to one of its shared-state writes, then B
+    next to one of its own (both keep what they hold -- a borrowed session, a half-done update), the third thread runs to
+    completion, then B, then A.  Needed when the damage takes three parties (A's and C's sessions share a part while B
+    keeps the pool from handing A's partner out earlier).  Spread evenly over the pairs of source lines, seeded."""
+    wl = write_lines(files)
+    pts = {}
+    for a in range(3):
+        others = [t for t in range(3) if t != a]
+        s = Sched(files, [['run', a]] + [['run', o] for o in others], max_trace=20000)
+        funcs, _ = make(s)
+        _, trace = s.run(funcs)
+        steps = [tuple(w) for (t, w) in trace if t == a]
+        pts[a] = [(w, i + 2) for i, w in enumerate(steps) if w in wl]
+    items = []
+    for a in range(3):
+        for b in range(3):
+            if b == a:
+                continue
+            c = 3 - a - b
+            for wa, ka in pts[a]:
+                for wb, kb in pts[b]:
+                    items.append(((wa, wb), [a] * ka + [b] * kb + [['run', c], ['run', b], ['run', a]]))
+    ctx.extra.setdefault('two_level_points', {})[site] = len(items)
+    return stratified(ctx.rng, items, cap)
 
 
 def run_site(ctx, site, make, files, n=None, length=60, cap=None, nthreads=3, read_cap=None, points_first=False):
@@ -2200,6 +2227,24 @@ def site_s3b(ctx):
     return make
 
 
+def s3_sessions_suspect():
+    """do the translator's facts about the pooled sessions (what the factory attaches to them, where the adapter comes
+    from, where request() stores the budget) differ from what Model/PerCall.v assumes, or is there a write site in
+    chunkstore_s3.py that no model covers?  (pure ast, same code as the translator items)"""
+    from fixtures import sharedwrites as sw
+    from vh.items import c20 as items
+    out = []
+    try:
+        items.item_session_parts(sw.repo_root(), out)
+    except Exception:   # noqa
+        return True
+    txt = '\n'.join(out)
+    ok = ('c20_session_shared_parts : list string := ["auth"%string; "url"%string].' in txt
+          and 'c20_adapter_per_session : bool := true' in txt and 'c20_request_sets_budget_first : bool := true' in txt
+          and 'c20_auth_state_writes : list string := [].' in txt)
+    return not ok or bool(unmodelled_lines(['katdal/chunkstore_s3.py']))
+
+
 def strengthen_site_table(ctx):
     t = {}
     for k in APPLYCAL_PLANS:
@@ -2281,6 +2326,12 @@ def run(ctx):
         elif site == 's3b':
             run_site(ctx, site, make, files, n=ctx.scale(4, 80), length=600, cap=ctx.scale(48, 400), read_cap=ctx.scale(4, 100),
                      points_first=True)
+            if ctx.tier == 'thorough' or s3_sessions_suspect():
+                # what the sessions of the pool have in common is not what was modelled (or the thorough tier): also the
+                # schedules in which THREE requests are in flight
+                for schedule in two_level_schedules(ctx, site, make, files, ctx.scale(100, 300)):
+                    if run_one(ctx, site, make, files, schedule):
+                        break
         else:
             run_site(ctx, site, make, files)
         _timed(ctx, site, t1)
